@@ -43,6 +43,8 @@ func nilTestOfField(f *ssa.Function, fld *types.Var) []kit.Guard {
 }
 
 func checkC06(p *load.Program, r *kit.Report) {
+	r.Rule("CLAIM-IS-REQUESTED", "in handleInventory an item for which AddTxID answered true is put into the getdata message before the loop goes on (the entry is already stamped as requested from this peer)", 1)
+	checkClaimIsRequested(p, r, "CLAIM-IS-REQUESTED")
 	r.NotDecided = "linearizability under all interleavings (the lock-set result gives atomicity of each decision, not a proof about their composition); timing of the request timeout; the end-to-end inv→getdata→tx leg over a connection."
 	r.Rule("LOCKSET", "every access to TxData{LastRequested,Received,NodeIDs,ReceivedFrom} holds that entry's RWMutex (write mode for writes) and every access to txMap.txs holds the bucket's RWMutex; constructors exempt", 20)
 	r.Rule("TEST-AND-SET", "TxData.Received is stored only behind the nil edge of a test of the same entry's Received with the entry lock held continuously from the test to the store (or in the literal of a freshly inserted entry); sendTx is reachable only through that edge or the fresh-insert edge, at most once", 3)
